@@ -106,6 +106,47 @@ def check(run, F, tier):
         else:
             rp.ok(f["name"], {"accepting_paths": cnt})
 
+    # fields restored only by the connect prefix must not be consulted before it on any way into a new connection
+    rq = run.rule("C10-R1q", "no field that only the connect prefix restores is read before the prefix runs", floor=4)
+    prefix_only = []
+    for n, sc in sorted(table.items()):
+        if sc in ("connection",) and n in fields:
+            want = newv[n]
+            if not (all(cur[n] == want for _, cur in close) and bool(close)):
+                prefix_only.append(n)
+
+    def reads_before(p, upto_effect_idx, ncons):
+        hit = set()
+        keys = list(p.cons.keys())[:ncons]
+        blob = repr(keys) + repr([e[3] for e in p.effects[:upto_effect_idx] if e[0] == "call"])
+        for n in prefix_only:
+            if "'%s')" % n in blob:
+                hit.add(n)
+        return hit
+    entries_q = [(sendh[("v3_1_1", "connect")], "initialize", "enter"), (sendh[("v5_0", "connect")], "initialize", "enter"),
+                 (recvh[("v3_1_1", "connect")], "initialize", "enter"), (recvh[("v5_0", "connect")], "initialize", "enter"),
+                 (ms["process_recv_packet"], "_connect", "stub"), (ms["send"], "_connect", "enter")]
+    for f, marker, kind in entries_q:
+        tag = "recv-handlers" if f["name"] == "process_recv_packet" else ""
+        res = conn.paths(F, f["path"], tag=tag)
+        bad = {}
+        cnt = 0
+        for p in res["paths"]:
+            idx = [i for i, e in enumerate(p.effects) if e[0] == kind and e[1].endswith(marker) and len(e) > 4]
+            if not idx:
+                continue
+            cnt += 1
+            for n in reads_before(p, idx[0], p.effects[idx[0]][4]):
+                bad.setdefault(n, p)
+        if cnt == 0:
+            rq.violation(f["name"], "%s: connect prefix / CONNECT dispatch not found (anchor lost)" % f["name"])
+        elif bad:
+            for n, p in sorted(bad.items()):
+                rq.violation("%s/%s" % (f["name"], n), "%s consults %s before the connect prefix has reset it: the previous connection's value decides (only notify_closed-reset fields may be read here)" % (f["name"], n),
+                             conn.path_summary(p), site="%s:%s" % (f["file"], f["line"]))
+        else:
+            rq.ok(f["name"], {"paths": cnt, "prefix_only_fields": prefix_only})
+
     # ------------------------------------------------------------------ R2
     r2 = run.rule("C10-R2", "session-scope fields equal new()'s values on every new-session path", floor=12)
     sess = [n for n, sc in table.items() if sc == "session" and n != "need_store"]
